@@ -57,6 +57,13 @@ type Node struct {
 	// Escapes: render DoubleQ content using these replacements (value char ->
 	// escape sequence), e.g. "\t" -> `\t`.  `"` and `\` are always escaped.
 	Escapes map[string]string
+	// BackslashCont: a multi-line DoubleQ scalar breaks its lines with an escaped
+	// line break (`text \` + newline): the value keeps the space before the backslash
+	// and drops the line break and the indentation of the next line.
+	BackslashCont bool
+	// Joinless (with BackslashCont): Lines are fragments of the value cut at arbitrary places (also inside
+	// words); they are joined without anything in between (`frag\` + newline + indentation + `ment`).
+	Joinless bool
 	// LineComment is appended after single-line plain/quoted scalars and
 	// after block scalar headers (" # text").
 	LineComment string
@@ -273,6 +280,13 @@ func (e *Emitter) value(v *Node, parentIndent int, top bool) {
 		e.w(open)
 		for i, l := range v.Lines {
 			if i > 0 {
+				if v.BackslashCont && v.Style == DoubleQ {
+					if v.Joinless {
+						e.w("\\")
+					} else {
+						e.w(" \\")
+					}
+				}
 				e.w("\n")
 				if l != "" {
 					e.w(pad(cont))
